@@ -45,6 +45,9 @@ long model_map_update(struct model_map *m, const void *key, size_t kobj, const v
 {
     if (kobj != m->ks || vobj != m->vs) { printf("MODEL-ERROR update object sizes %zu/%zu != map sizes %zu/%zu (%s)\n", kobj, vobj, m->ks, m->vs, m->name); }
     int i = find(m, key);
+    /* flags as documented for bpf_map_update_elem: BPF_ANY 0, BPF_NOEXIST 1, BPF_EXIST 2 */
+    if ((flags & 3) == BPF_NOEXIST && i >= 0) return -EEXIST;
+    if ((flags & 3) == BPF_EXIST && i < 0) return -ENOENT;
     if (i < 0) {
         if (m->n == m->cap) {
             if (m->type != BPF_MAP_TYPE_LRU_HASH) return -E2BIG;
